@@ -244,11 +244,24 @@ pub fn run(tr: &mut Tr, seed: u64, paths_file: &str, ops: &str, full: bool, shar
                 unbuf_paths.push(StatePath { w: 64, key: 128 + k, path: vec![POp::Read(64), POp::Read(64), POp::Read(k)] });
                 unbuf_paths.push(StatePath { w: 64, key: 192 + k, path: vec![POp::Read(13), POp::Skip(51 + 64 + k)] });
             }
-            let plist: Vec<&StatePath> = if cfg.kind == "unbuf" {
+            let mut plist: Vec<&StatePath> = if cfg.kind == "unbuf" {
                 unbuf_paths.iter().collect()
             } else {
                 paths.iter().filter(|p| p.w == cfg.w).collect()
             };
+            // tail states: r bits before the end of the data (the backend has nothing more to give:
+            // a strict one fails, a zero-extended one serves zeros), reached by one long skip or by a
+            // skip and a short read
+            let w = cfg.w;
+            let mut tails: Vec<StatePath> = vec![];
+            for r in [0usize, 1, 2, 7, 8, 9, w - 1, w, w + 1, 2 * w - 1, 2 * w, 2 * w + 1] {
+                let to = nbits as usize - r;
+                tails.push(StatePath { w, key: 10_000 + r, path: vec![POp::Skip(to)] });
+                tails.push(StatePath { w, key: 20_000 + r, path: vec![POp::Skip(to - 3), POp::Read(3)] });
+            }
+            if ops != "c07" {
+                plist.extend(tails.iter());
+            }
             let alpha = alphabet(cfg, ops, full, nbits);
             tr.reset();
             let mut base = TRd::new(tr, cfg, &img);
